@@ -24,7 +24,9 @@ fn ffi_render(slot: usize, o: &Obs) -> String {
 pub fn run(env: &Env) -> Report {
     let lay = mk_layouts(env);
     let seed = env.a.seed;
-    let ffi = PathBuf::from("/verif/ffi");
+    // <verif>/ffi next to <verif>/harness/target/release/<this binary> (so that a copy of the machinery uses its own C library)
+    let ffi = std::env::current_exe().ok().and_then(|e| e.parent().and_then(|p| p.parent()).and_then(|p| p.parent()).and_then(|p| p.parent()).map(|p| p.join("ffi")))
+        .filter(|p| p.join("driver.c").exists()).unwrap_or_else(|| PathBuf::from("/verif/ffi"));
     let have = ffi.join("driver_asan").exists() && ffi.join("driver_plain").exists();
     let (n_asan, n_valgrind) = if env.quick() { (24usize, 4usize) } else { (600, 60) };
     let total = n_asan + n_valgrind;
